@@ -186,6 +186,7 @@ func updates(metricsYAML string) []update {
 			update{Name: "gateway-and-metrics-only", Endpoint: ep, Valid: true, Gateway: "allowed_domains: []\n", Metrics: metricsYAML},
 			update{Name: "valid-flows-with-unloadable-metrics", Endpoint: ep, FlowDefs: confModel{"fa.yaml": {"a.com", 419}, "fonlyb.yaml": {"onlyb.com", 419}}, Metrics: "general_metrics:\n  label_value: [unterminated\n"},
 			update{Name: "valid-flows-with-metrics-of-wrong-shape", Endpoint: ep, FlowDefs: confModel{"fa.yaml": {"a.com", 419}}, Metrics: "general_metrics: 17\nsystem_metrics: yes\n"},
+			update{Name: "invalid-structure-with-a-yml-file", Endpoint: ep, FlowDefs: confModel{"fa.yaml": {"a.com", 419}}, RawFlows: map[string]string{"new.yml": flowFile("fnew", flowDef{"c.com", 420}), "bad.yaml": "name: bad\nfilter:\n  url: c.com/*\n"}},
 			update{Name: "invalid-undecodable-json", Endpoint: ep, RawBody: "{\"flows\": {\"x.yaml\": "},
 			update{Name: "invalid-bad-base64-second-file", Endpoint: ep, FlowDefs: confModel{"fa.yaml": {"a.com", 419}}, RawFlows: map[string]string{"zz.yaml": "!!raw:***not-base64***"}},
 			update{Name: "invalid-structure", Endpoint: ep, FlowDefs: confModel{"fa.yaml": {"a.com", 419}}, RawFlows: map[string]string{"bad.yaml": "name: bad\nfilter:\n  url: c.com/*\n"}},
@@ -262,6 +263,8 @@ func (w *world) resetToA() bool {
 	cfg := sim.Config{Flows: w.base.files()}
 	if len(w.base) > 0 {
 		cfg.Quotas = map[string]string{"q.yaml": quotaFile}
+		// a file the engine does not load (only *.yaml is) but which is part of the configuration on disk
+		cfg.Flows["parked.yaml.disabled"] = "name: parked\n# kept by the operator for later\n"
 	}
 	sim.WriteConfDir(cfg)
 	code, body := w.eng.Admin("POST", "/load_flows", nil)
